@@ -1,7 +1,8 @@
 (** * Property C12 / C09 (JSON, dynamic reordering) —
       [dd._copy.load_json(..., load_order=False)] through [dd.autoref] into a
       receiver whose dynamic reordering may be ENABLED.  Only statements
-      closed by [exact]; the proofs live in [Proofs/JsonLoadDyn.v].
+      closed by [exact]; the proofs live in [Proofs/JsonLoadDyn.v] and
+      [Proofs/JsonLoadDynAny.v] (the failure path, any node limit).
 
     [Properties/C12_json.v] (J1, [C12_json_roundtrip], [C12_json_load],
     [C12_json_load_any_file]) assumes [last_len (mgr b) = None]; its example
@@ -23,7 +24,7 @@
     - [keeps K s s'] / [heldn L] as in [Properties/C09c.v];
     - dynamic reordering is enabled afterwards iff it was before.
     Not claimed (false, see the example): [frame], [extends], [vars ⊆]. *)
-From DD Require Import JsonLoadDyn Driver6 C12_json.
+From DD Require Import JsonLoadDynAny Driver6 C12_json.
 Local Open Scope string_scope.
 
 (** ** J1 under the dynamic invariant.  Dump, then [load_order=False] into
@@ -94,15 +95,18 @@ Print Assumptions C12_json_load_dynamic.
     reference (the memo's references and every temporary are released).  In
     both cases the invariant holds again, every old handle keeps node,
     validity and function, the declared names are the old ones plus those of
-    the "level_of_var" line, and the reordering mode is kept.  (Unlike
-    [C12_json_load_any_file] this assumes an unbounded table: the decorated
-    calls then cannot fail; what can fail is a lookup or the assertion on the
-    sign of a new node.) *)
+    the "level_of_var" line, the reordering mode and the node limit are kept.
+    No hypothesis on [max_nodes]: with a bounded table a decorated call
+    ([var], [ite]) of the loader may raise [RuntimeError] — in its first
+    attempt, in the sifting pass that serves a reordering request, or in the
+    second attempt ([Proofs/DynamicAny.v] [try_to_reorder_any]) — which is one
+    more way for a line to fail, besides a lookup and the assertion on the
+    sign of a new node. *)
 Theorem C12_json_load_any_file_dynamic jf b :
-  AInvDT b → max_nodes (mgr b) = None →
+  AInvDT b →
   ∃ res b',
     a_load_json jf false b = (res, b') ∧
-    AInvDT b' ∧ max_nodes (mgr b') = None ∧ AKeepAll b b' ∧
+    AInvDT b' ∧ max_nodes (mgr b') = max_nodes (mgr b) ∧ AKeepAll b b' ∧
     (∀ v, is_Some (vars (mgr b') !! v) ↔
           is_Some (vars (mgr b) !! v) ∨ v ∈ (jf_levels jf).*1) ∧
     (last_len (mgr b) = None → last_len (mgr b') = None) ∧
@@ -115,19 +119,19 @@ Theorem C12_json_load_any_file_dynamic jf b :
                          Forall (valid (mgr b')) us ∧
                          Counts (mgr b') (ledger_add (hledger b) us)
     end.
-Proof. exact (json_load_any_file_dynamic jf b). Qed.
+Proof. exact (json_load_any_file_dynamic_any jf b). Qed.
 Print Assumptions C12_json_load_any_file_dynamic.
 
 (** on explicit states, any ledger *)
 Theorem C12_json_load_any_file_dynamic_ledger jf r0 H n L :
-  Inv r0 → rctx r0 = false → tape r0 = [] → max_nodes r0 = None → Counts r0 L →
+  Inv r0 → rctx r0 = false → tape r0 = [] → Counts r0 L →
   ∃ res r1 r' H' n',
     declare (jf_levels jf).*1 r0 = (Ok tt, r1) ∧
     a_load_json jf false (ASt r0 H n) = (res, ASt r' H' n') ∧
     Inv r1 ∧ frame r0 r1 ∧ vars r0 ⊆ vars r1 ∧ Counts r1 L ∧
     (∀ v, is_Some (vars r1 !! v) ↔ is_Some (vars r0 !! v) ∨ v ∈ (jf_levels jf).*1) ∧
     (∀ u, valid r0 u → valid r1 u ∧ ∀ ρ, denv r1 u ρ = denv r0 u ρ) ∧
-    Inv r' ∧ rctx r' = false ∧ tape r' = [] ∧ max_nodes r' = None ∧
+    Inv r' ∧ rctx r' = false ∧ tape r' = [] ∧ max_nodes r' = max_nodes r0 ∧
     keeps (heldn L) r1 r' ∧
     (last_len r0 = None → last_len r' = None) ∧
     (is_Some (last_len r0) → is_Some (last_len r')) ∧
@@ -136,7 +140,7 @@ Theorem C12_json_load_any_file_dynamic_ledger jf r0 H n L :
     | Ok hroots => ∃ us, H' = hins H n us ∧ n' = n + length us ∧
                          Forall (valid r') us ∧ Counts r' (ledger_add L us)
     end.
-Proof. exact (json_load_any_file_dyn_ledger jf r0 H n L). Qed.
+Proof. exact (json_load_any_file_dyn_ledger_any jf r0 H n L). Qed.
 Print Assumptions C12_json_load_any_file_dynamic_ledger.
 
 (** ** Non-vacuity: the setting of [C12_json_reordering_enabled].  Source
@@ -239,3 +243,46 @@ Example C12_json_dyn_example :
                    length (filter (fun p => absn (p.2) = n) (map_to_list (handles b')))))
     (map_to_list (refc (mgr b'))) = true.
 Proof. by vm_compute. Qed.
+Print Assumptions C12_json_dyn_example.
+
+(** ** The failure path with reordering enabled AND a node limit: the same
+    receiver with [bdd._bdd.max_nodes = 8] ([jwDB]).  Its state satisfies the
+    hypothesis of [C12_json_load_any_file_dynamic]; by evaluation: the load
+    raises [RuntimeError] AFTER a sifting pass ran in the middle (the order
+    changed as above, the threshold was recomputed, reordering is still
+    enabled); no handle was created; the old handles keep node and truth
+    table by name; the limit is kept; the counters are exact for the ledger
+    of the old handles (the nodes built before the failure stay,
+    unreferenced, until a collection: no reference leaked). *)
+Definition jwDB : aworld := fst (astep jwD 1 (ASetMaxNodes (Some 8%positive))).
+
+Example C12_json_dyn_full_hypothesis : AInvDT (aworld_get jwDB 1).
+Proof.
+  exact (proj1 (astep_AInvD jwD 1 (ASetMaxNodes (Some 8%positive)) eq_refl
+                  (proj1 (proj2 (proj2 (proj2 C12_json_dyn_hypotheses)))))).
+Qed.
+Print Assumptions C12_json_dyn_full_hypothesis.
+
+Example C12_json_dyn_full_table :
+  let b := aworld_get jwDB 1 in
+  let b' := aworld_get (fst (astep_json_load jwDB 1 jf0 false)) 1 in
+  max_nodes (mgr b) = Some 8%positive ∧ last_len (mgr b) = Some 1 ∧
+  snd (astep_json_load jwDB 1 jf0 false) = Err ERuntime ∧
+  (* a sifting pass ran before the failure; reordering is still enabled; the
+     limit is kept *)
+  map_to_list (vars (mgr b)) = [(0, 1); (5, 2); (2, 0)] ∧
+  map_to_list (vars (mgr b')) = [(0, 1); (1, 2); (5, 3); (2, 0)] ∧
+  bool_decide (is_Some (last_len (mgr b'))) = true ∧
+  max_nodes (mgr b') = Some 8%positive ∧
+  (* no handle was created; old handles: same node, same function of the names *)
+  map_to_list (handles b') = map_to_list (handles b) ∧ next_hid b' = next_hid b ∧
+  (denv (mgr b') (hnode b' 0) <$> names4) = (denv (mgr b) (hnode b 0) <$> names4) ∧
+  (denv (mgr b') (hnode b' 1) <$> names4) = (denv (mgr b) (hnode b 1) <$> names4) ∧
+  (denv (mgr b') (hnode b' 2) <$> names4) = (denv (mgr b) (hnode b 2) <$> names4) ∧
+  (* the counters are exact for the ledger of the old handles *)
+  forallb (fun '(n, c) =>
+      bool_decide (c = indeg (succ (mgr b')) n + (if decide (n = 1%positive) then 1 else 0) +
+                   length (filter (fun p => absn (p.2) = n) (map_to_list (handles b)))))
+    (map_to_list (refc (mgr b'))) = true.
+Proof. by vm_compute. Qed.
+Print Assumptions C12_json_dyn_full_table.
